@@ -195,7 +195,7 @@ def run_case(ctx, mr, case):
                 if raw != want:
                     ctx.diff('oracle', 'sd-raw-after-write', dict(case, path=p), want.hex()[:40], raw.hex()[:40], f'console-format bytes of {rel!r} are not the encryption of the view')
                 # the other ways PyFilesystem offers of reading and writing a file through the same view
-                for api in ('open', 'readbytes', 'writebytes', 'appendbytes', 'upload', 'download'):
+                for api in ('open', 'readbytes', 'writebytes', 'appendbytes', 'upload', 'download', 'writefile', 'hash', 'append-after-seek', 'appendtext'):
                     ctx.stat('api_' + api)
                     try:
                         if api == 'open':
@@ -212,6 +212,29 @@ def run_case(ctx, mr, case):
                             fsview.appendbytes(p, more)
                             files[rel] = files[rel] + more
                             got = base.readbytes(f'{id0}/{id1}{rel}')
+                        elif api == 'writefile':
+                            new = pyenv.rbytes(rng, rng.choice([0, 5, 32, 100]))
+                            fsview.writefile(p, io.BytesIO(new))
+                            files[rel] = new
+                            got = base.readbytes(f'{id0}/{id1}{rel}')
+                        elif api == 'hash':
+                            got = bytes.fromhex(fsview.hash(p, 'sha256'))
+                        elif api == 'append-after-seek':
+                            # a file opened for appending puts every write at its end, wherever the position was moved to before
+                            more = pyenv.rbytes(rng, rng.choice([1, 16, 20, 33]))
+                            with fsview.openbin(p, 'a+') as fh:
+                                fh.seek(rng.choice([0, 0, 1, 16]))
+                                fh.write(more)
+                            files[rel] = files[rel] + more
+                            got = base.readbytes(f'{id0}/{id1}{rel}')
+                        elif api == 'appendtext':
+                            # text mode is not offered; if it is refused nothing is written, if it is served the text arrives encrypted
+                            try:
+                                fsview.appendtext(p, 'world')
+                                files[rel] = files[rel] + b'world'
+                            except NotImplementedError:
+                                ctx.stat('appendtext_refused')
+                            got = base.readbytes(f'{id0}/{id1}{rel}')
                         elif api == 'upload':
                             new = pyenv.rbytes(rng, rng.choice([0, 5, 32, 100]))
                             fsview.upload(p, io.BytesIO(new))
@@ -226,10 +249,10 @@ def run_case(ctx, mr, case):
                         ctx.diff('oracle', f'sd-{api}-raises', dict(case, path=p, api=api), 'bytes', pyenv.errname(ex) + ': ' + str(ex)[:60],
                                  f'{api}({p!r}) through the SD filesystem view raised {pyenv.errname(ex)}')
                         continue
-                    exp = files[rel] if api in ('open', 'readbytes', 'download') else sd.sd_crypt(nk, rel, files[rel])
+                    exp = files[rel] if api in ('open', 'readbytes', 'download') else hashlib.sha256(files[rel]).digest() if api == 'hash' else sd.sd_crypt(nk, rel, files[rel])
                     if got != exp:
                         ctx.diff('oracle', f'sd-{api}', dict(case, path=p, api=api), exp.hex()[:40], bytes(got).hex()[:40],
-                                 f'{api}({p!r}) through the SD filesystem view: ' + ('does not return the decrypted content' if api in ('open', 'readbytes', 'download')
+                                 f'{api}({p!r}) through the SD filesystem view: ' + ('does not return (the digest of) the decrypted content' if api in ('open', 'readbytes', 'download', 'hash')
                                                                                      else 'does not store the encryption of the data'))
         for rel in list(files)[:2]:
             for api in ('copy', 'move'):
